@@ -1082,4 +1082,40 @@ theorem Good.foldl_step {w : World} (hw : w.Good) (lines : List String) :
 theorem Good.runLines (lines : List String) : (HS.runLines lines).Good :=
   Good.foldl_step World.good_empty lines
 
+/-! ### regression: the two histories that broke the first version of the model
+
+Evaluated by the compiler (`#guard`; the kernel cannot run the string parser).  Before the
+repair the owning entry `B` of the first history and the owning entry `c` of the second were
+not well formed. -/
+
+/-- every owning entry of the world is `Ok` (executable) -/
+def World.poolOk (w : World) : Bool := w.pool.all fun e => e.2.view.isSome || decide e.2.Ok
+
+/-- (F-A) a copy of one view stored under the name of another view: `vb` is simply rebound -/
+def exCrossView : List String := [
+  "cfg A kind=rec covord=0 spord=0 fields=i4,f8 primary=0",
+  "cfg B kind=rec covord=0 spord=0 fields=i4,i2 primary=0",
+  "single A field=1 r=va",
+  "single B field=1 r=vb",
+  "copy va r=vb"]
+
+#guard (HS.runLines exCrossView).poolOk &&
+  (HS.runLines exCrossView).pool.map (fun e => (e.1, e.2.view.isSome)) ==
+    [("vb", false), ("va", true), ("B", false), ("A", false)]
+
+/-- (F-B) the parent's name rebound to a record map whose field 1 is boolean: the stale
+    descriptor `v` no longer resolves (`inv v` answers `bad-op:no-such-map`) -/
+def exReboundParent : List String := [
+  "cfg A kind=rec covord=0 spord=0 fields=i4,u2 primary=0",
+  "single A field=1 r=v",
+  "cfg A kind=rec covord=0 spord=0 fields=i4,b1 primary=0",
+  "inv v r=c"]
+
+#guard (HS.runLines exReboundParent).poolOk &&
+  ((HS.runLines exReboundParent).get? "v").isNone &&
+  (HS.runLines exReboundParent).pool.map (·.1) == ["A", "v"]
+
+example : (HS.runLines exCrossView).Good ∧ (HS.runLines exReboundParent).Good :=
+  ⟨Good.runLines _, Good.runLines _⟩
+
 end HS
